@@ -27,7 +27,7 @@ import (
 	"github.com/openfga/openfga/pkg/storage/storagewrappers/sharediterator"
 )
 
-const waitLimit = 5 * time.Second
+const waitLimit = 8 * time.Second
 
 // ---------------------------------------------------------------------------------------------
 // canonical forms
@@ -873,13 +873,17 @@ func countJoiners() int {
 	return c
 }
 
+// pollLimit bounds the polls of the goroutine dump (each dump stops the world, so the polls are
+// spaced out; the outcome never depends on the spacing, only on the goroutine eventually blocking).
+const pollLimit = 30 * time.Second
+
 func waitJoiners(want int) bool {
-	deadline := time.Now().Add(waitLimit)
+	deadline := time.Now().Add(pollLimit)
 	for countJoiners() < want {
 		if time.Now().After(deadline) {
 			return false
 		}
-		runtime.Gosched()
+		time.Sleep(100 * time.Microsecond)
 	}
 	return true
 }
@@ -1394,17 +1398,17 @@ func runAdmission(w *rec.Writer, d caseDesc) {
 		if i == 0 {
 			select { // the creator is inside its producer
 			case <-g.entered:
-			case <-time.After(waitLimit):
+			case <-time.After(pollLimit):
 				hung = 1
 			}
 		} else {
-			deadline := time.Now().Add(waitLimit)
+			deadline := time.Now().Add(pollLimit)
 			for countBlocked("storageItem).unwrap") < base+i {
 				if time.Now().After(deadline) {
 					hung = 1
 					break
 				}
-				runtime.Gosched()
+				time.Sleep(100 * time.Microsecond)
 			}
 		}
 	}
@@ -1420,7 +1424,7 @@ func runAdmission(w *rec.Writer, d caseDesc) {
 			if x.it != nil {
 				x.it.Stop()
 			}
-		case <-time.After(waitLimit):
+		case <-time.After(pollLimit):
 			outs[i] = rec.I(9)
 			hung = 1
 		}
